@@ -231,6 +231,51 @@ fn main() {
                 ctx.sample(|| jobj! {"font" => fname.clone(), "cell" => format!("{}x{}", cw, ch), "image" => format!("{}x{}", iw, ih), "mapped_characters" => n});
             }
         });
+        // --- every Unicode scalar value against every built-in mapping: mapped characters have
+        // their own index, all 1.1 million others (in particular code points that alias a mapped
+        // one when upper bits are dropped) get the replacement index
+        const MODULES: [&str; 14] = ["ascii", "iso_8859_1", "iso_8859_2", "iso_8859_3", "iso_8859_4", "iso_8859_5", "iso_8859_7", "iso_8859_9", "iso_8859_10", "iso_8859_13", "iso_8859_14", "iso_8859_15", "iso_8859_16", "jis_x0201"];
+        const SCALAR_CHUNK: u32 = 0x2000;
+        let chunks = (0x110000 / SCALAR_CHUNK) as u64;
+        run.generate("mapping-all-scalar-values", MODULES.len() as u64 * chunks, true, 0.0, |ctx, idx, _rng| {
+            let module = MODULES[(idx / chunks) as usize];
+            let Some(&(_, name, font)) = FONTS.iter().find(|f| f.0 == module) else { return };
+            let map = builtin_mapping(module);
+            let q = font.glyph_mapping.index('?');
+            let lo = (idx % chunks) as u32 * SCALAR_CHUNK;
+            // position of every mapped character inside this chunk (from the mapping's own enumeration)
+            let mut want: Vec<usize> = vec![q; SCALAR_CHUNK as usize];
+            let mut mapped_here = 0u64;
+            for (i, c) in map.chars().enumerate() {
+                let v = c as u32;
+                if v >= lo && v < lo + SCALAR_CHUNK {
+                    want[(v - lo) as usize] = i;
+                    mapped_here += 1;
+                }
+            }
+            let mut n = 0u64;
+            for v in lo..lo + SCALAR_CHUNK {
+                let Some(c) = char::from_u32(v) else { continue };
+                n += 1;
+                let got = font.glyph_mapping.index(c);
+                if got != want[(v - lo) as usize] {
+                    let mapped = map.chars().any(|m| m == c);
+                    ctx.eval();
+                    ctx.violation(
+                        if mapped { "font-data|mapped-character-has-not-its-own-index" } else { "font-data|unmapped-character-not-replaced" },
+                        || format!("{}::{} character U+{:04X}", module, name, v),
+                        || format!("index = {}, expected {} (replacement glyph index = {})", got, want[(v - lo) as usize], q),
+                    );
+                    break;
+                }
+            }
+            ctx.count("scalar_values_checked", n);
+            ctx.count("scalar_values_mapped", mapped_here);
+            ctx.evals(n);
+            if mapped_here > 0 {
+                ctx.nontrivial(egmon::rng::hash_str(module) ^ lo as u64);
+            }
+        });
         // --- every mapped character of every built-in font, drawn
         let styles = run.tier(8u64, 400u64);
         run.generate("built-in-fonts-all-characters", nf * styles, true, 0.5, |ctx, idx, rng| {
